@@ -235,7 +235,8 @@ def h_fiber(ctx, variant, k, props, pmax=0.01, nli_method='gn_model_analytic'):
 H_PLANCK = 6.62607015e-34
 
 
-def h_edfa(ctx, variety, k, props, sym_pmax=False, oob=False, sym_invoa=False, eqpt_name='eqpt_config.json'):
+def h_edfa(ctx, variety, k, props, sym_pmax=False, oob=False, sym_invoa=False, eqpt_name='eqpt_config.json', sym_band=False,
+           history=False):
     """real Edfa.__call__ (flat profile: tilt 0, no ripple) with symbolic set gain, VOAs, input powers and splits"""
     symbolic_ctors(ctx)
     eqpt = equipment(eqpt_name)
@@ -263,8 +264,29 @@ def h_edfa(ctx, variety, k, props, sym_pmax=False, oob=False, sym_invoa=False, e
     n = len(freqs)
     si = make_si(ctx, n, freqs=freqs, labels=labels, pmax=0.1)
     pre = snap(si)
-    out = amp(si)
     idx = list(range(1, n)) if oob else list(range(n))
+    if sym_band:
+        # symbolic lower band edge around the first carrier: its slot may lie inside, straddle the edge or lie outside
+        half = pre['slot'][idx[0]] / 2
+        bf = ctx.real('band_f_min', lo=freqs[idx[0]] - 3 * half, hi=freqs[idx[0]] + half)
+        amp.params.bands = [{'f_min': bf, 'f_max': amp.params.f_max}]
+        if not bool(bf <= freqs[idx[0]] - half):
+            idx = idx[1:]
+        if not idx:
+            return
+        k = len(idx)
+    fresh = None
+    if history:
+        # the same amplifier instance first carries another comb (same channel count, other frequencies, weak signals);
+        # what it does to the comb under test must be what a fresh instance with the same settings does
+        import copy
+        from gnpy.core.info import create_arbitrary_spectral_information
+        fresh = copy.copy(amp)
+        fresh.params = copy.copy(amp.params)
+        other = create_arbitrary_spectral_information(frequency=[f + 1.2e12 + 37.5e9 for f in freqs], pch=1e-10, baud_rate=32e9,
+                                                      tx_osnr=40.0, tx_power=1e-10, slot_width=50e9)
+        amp(other)
+    out = amp(si)
     ctx.prove('edfa:in_band_channels_only', out.number_of_channels == k and
               all(out.frequency[j] == pre['f'][i] and out.label[j] == pre['label'][i] for j, i in enumerate(idx)))
     # ---- oracle
@@ -293,8 +315,23 @@ def h_edfa(ctx, variety, k, props, sym_pmax=False, oob=False, sym_invoa=False, e
             ctx.prove(f'edfa:signal_amplified_by_gain[{i}]', approx(out.signal[j] * voa_lin, pin * pre['s'][i] * g_eff, 1e-9))
             ctx.prove(f'edfa:nli_amplified_by_gain[{i}]', approx(out.nli[j] * voa_lin, pin * pre['n'][i] * g_eff, 1e-9))
             ctx.prove(f'edfa:reported_pch_out_dbm[{i}]', approx_db(amp.pch_out_dbm[j], 10 * log10(ctx, out._pch[j] * 1e3)))
+    if fresh is not None:
+        from gnpy.core.info import SpectralInformation
+        twin = make_twin(si, pre)
+        ref = fresh(twin)
+        for j in range(out.number_of_channels):
+            ctx.prove(f'edfa:history:same_output_as_a_fresh_instance[{j}]',
+                      And(approx(out._pch[j], ref._pch[j], 1e-9), approx(out.ase[j], ref.ase[j], 1e-9),
+                          approx(out.signal[j], ref.signal[j], 1e-9)), info=dict(variety=variety))
     if 'C01' in props:
         c01_obligations(ctx, out, 'edfa')
+        # the spectrum object handed to the amplifier (which a caller may inspect or propagate again: sweeps, broadcast) is
+        # either the one returned, or still a consistent spectrum with the split it had before the call
+        if out is not si:
+            for i in range(k):
+                ctx.prove(f'edfa:input_object_split_intact_after_call[{i}]',
+                          And(eq(si._signal_ratio[i], pre['s'][i]), eq(si._ase_ratio[i], pre['a'][i]), eq(si._nli_ratio[i], pre['n'][i]),
+                              eq(si._pch[i], pre['p'][i])))
     if 'C02' in props:
         c02_obligations(ctx, pre, out, 'edfa', 'amp', idx=idx)
 
